@@ -255,9 +255,10 @@ func genPredefConfig(g *Gen, cids []string) (yaml string, opts []string, merged 
 			merged = map[string]map[uint16]string{}
 		}
 	}
-	nopt := int(g.Range(0, 3))
+	nopt := int(g.Range(0, 5))
+	starShort := map[uint16]bool{}
 	for i := 0; i < nopt; i++ {
-		id := uint16(g.Range(1, 5))
+		id := uint16(g.Range(1, 4))
 		nm := names[g.Intn(len(names))]
 		// keep names unique within each client's map (N7): drop an option that would duplicate a name under another id
 		cid := "*"
@@ -273,8 +274,17 @@ func genPredefConfig(g *Gen, cids []string) (yaml string, opts []string, merged 
 		if dup {
 			continue
 		}
+		short := g.Bool(0.5)
+		if was, ok := starShort[id]; ok && g.Bool(0.7) {
+			short = !was // an override in the other spelling
+		}
 		if cid == "*" {
-			opts = append(opts, fmt.Sprintf("%s;%d", nm, id))
+			starShort[id] = short
+		}
+		if cid == "*" && short {
+			opts = append(opts, fmt.Sprintf("%s;%d", nm, id)) // the two spellings of "every client"
+		} else if cid == "*" {
+			opts = append(opts, fmt.Sprintf("*;%s;%d", nm, id))
 		} else {
 			opts = append(opts, fmt.Sprintf("%s;%s;%d", cid, nm, id))
 		}
